@@ -13,6 +13,7 @@ import (
 	"fmt"
 	"math/big"
 	"math/rand"
+	"reflect"
 	"sort"
 
 	"github.com/icon-project/goloop/common"
@@ -164,7 +165,7 @@ func rollbackPhase(c *ev.Ctx, r *rand.Rand) {
 		if ts := s.GetUnstakingTimerSnapshot(h); ts != nil {
 			for itr := ts.Iterator(); itr.Has(); itr.Next() {
 				a, _ := itr.Get()
-				if a == nil {
+				if a == nil || reflect.ValueOf(a).IsNil() { // a compacted slot may hold a typed nil
 					got["<nil>"]++
 				} else {
 					got[a.String()]++
